@@ -72,7 +72,9 @@ def run(ctx: Ctx) -> Result:
             B.viol('a witness builder raised', inp, 'witnesses', [w for d in (claim, refund, stranger) for w in d.values() if isinstance(w, str)]); continue
         fam = {'htlc_sha256': 'htlc', 'htlc_shake256': 'htlc', 'htlc2_sha256': 'htlc2', 'htlc2_shake256': 'htlc2', 'ptlc': 'ptlc', 'ptlc_tweak': 'ptlc_tweak'}
         times = [(deadline - 1, B.now if deadline - 1 - B.now < 60 else deadline - 1), (deadline, B.now if deadline - B.now < 60 else deadline), (deadline + 1, deadline + 1),
-                 (deadline + 5, deadline + 5 - 59), (deadline + 5, deadline + 5 - 60), (deadline + 5, deadline + 5 - 61)]
+                 (deadline + 5, deadline + 5 - 59), (deadline + 5, deadline + 5 - 60), (deadline + 5, deadline + 5 - 61),
+                 # validated again later: the verifier's clock is well past the execution timestamp (only a timestamp AHEAD of the clock is refused)
+                 (deadline, deadline + 60), (deadline + 1, deadline + 1 + 3600), (deadline + 5, deadline + 5 + 61)]
         for lk, l in locks.items():
             for t, now in times:
                 if now < 0 or t < 0: continue
